@@ -1,11 +1,14 @@
 // Case generator of the C02 "api" leg: recipes for init segments, fragments, media segments, fragmented and
 // progressive files and single boxes, plus the history of operations. All randomness comes from rapid draws.
-package c02
+package apigen
 
 import (
 	"fmt"
+	"sort"
 
 	"pgregory.net/rapid"
+
+	"verif/internal/boxmut"
 )
 
 var langs = []string{"und", "eng", "swe", "zho", "en", "sv", "en-US", "zh-Hant-TW", "x-klingon", "de-CH-1996"}
@@ -13,15 +16,16 @@ var aacFreqs = []int{96000, 88200, 64000, 48000, 44100, 32000, 24000, 22050, 160
 var timescales = []uint32{1, 1000, 44100, 48000, 90000, 10000000, 0xffffffff}
 
 // pick draws an index in [0,n) that is (nearly) uniform: rapid's own integer generators favour small values and
-// the bounds, which would starve most of a long list. Shrinking still works (towards the index of value 0).
-func pick(t *rapid.T, label string, n int) int {
-	v := rapid.Uint64().Draw(t, label)
-	v ^= v >> 30
-	v *= 0xbf58476d1ce4e5b9
-	v ^= v >> 27
-	v *= 0x94d049bb133111eb
-	v ^= v >> 31
-	return int(v % uint64(n))
+// the bounds, which would starve most of a long list. Shrinking still works (towards index 0).
+func pick(t *rapid.T, label string, n int) int { return boxmut.Uniform(t, label, n) }
+
+// tableN draws the number of entries of a table: mostly 0..small, with a low-probability tail of 7..40 entries (Size()
+// formulas and encoders that go wrong only beyond a handful of entries are out of reach otherwise).
+func tableN(t *rapid.T, label string, small int) int {
+	if rapid.IntRange(0, 99).Draw(t, label+"Tail") < 8 {
+		return rapid.IntRange(7, 40).Draw(t, label+"Long")
+	}
+	return rapid.IntRange(0, small).Draw(t, label)
 }
 
 func genHist(t *rapid.T) []string {
@@ -364,10 +368,21 @@ func genProg(t *rapid.T) *progR {
 	return &progR{Boxes: bs}
 }
 
-func genAPICase(t *rapid.T) apiCase {
-	kinds := []string{"init", "init", "init", "fragment", "fragment", "fragment", "fragment", "segment", "segment", "segment",
-		"file-frag", "file-frag", "file-frag", "file-frag", "file-prog", "file-prog", "box", "box", "box", "box", "box"}
-	c := apiCase{Kind: kinds[pick(t, "kind", len(kinds))]}
+// apiKinds: 40 slots. 22 (55%) go to the single-box builders: there are 88 of them and each is to see about a hundred
+// cases in a quick run of 16000; the composite kinds share the rest.
+var apiKinds = func() []string {
+	var out []string
+	for kind, n := range map[string]int{"box": 22, "init": 3, "fragment": 4, "segment": 3, "file-frag": 5, "file-prog": 3} {
+		for i := 0; i < n; i++ {
+			out = append(out, kind)
+		}
+	}
+	sort.Strings(out)
+	return out
+}()
+
+func Gen(t *rapid.T) Case {
+	c := Case{Kind: apiKinds[pick(t, "kind", len(apiKinds))]}
 	switch c.Kind {
 	case "init":
 		c.Init = genInit(t, pct(t, 30, "protect"))
